@@ -329,9 +329,9 @@ def tie_C06(ctx):
             comm.append([f"new 0 {g} seed {s.hex()}", "clone 1 0", "clone 2 0", "clone 3 0",
                          "jump 0"] + [f"{nat} 0"] * k + [f"{nat} 1"] * k + ["jump 1", "eq 0 1", "ser 0", "ser 1",
                          "jump 2", "ljump 2", "ljump 3", "jump 3", "eq 2 3"])
-    ctx.absolute("jump/long_jump state and following output vs model (basis + random states)", cases,
-                 mask=lambda c: c.startswith("u32 ") or c.startswith("u64 "))
-    h, _ = ctx.absolute("jump commutes with stepping and with long_jump", comm, mask=only_state)
+    ctx.absolute_from_state("jump/long_jump state and following output vs model (basis + random states)", cases,
+                            mask=lambda c: c.startswith("u32 ") or c.startswith("u64 "))
+    h, _ = ctx.absolute_from_state("jump commutes with stepping and with long_jump", comm, mask=only_state)
     for c, o in zip(comm, h):
         for cmd, x in zip(c, o):
             if cmd.startswith("eq ") and x != "true":
@@ -388,8 +388,8 @@ def tie_C07(ctx):
             ctx.dist[f"{g}:basis"] += 1
         for _ in range(ctx.scale(30, 400)):
             cases.append([f"new 0 {g} seed {rand_bytes(rng, nb).hex()}", f"{nat} 0", "ser 0", f"{nat} 0", "ser 0"])
-    ctx.absolute("state transition on all n basis states of every linear engine (+ random states) vs model", cases,
-                 mask=only_state)
+    ctx.absolute_from_state("state transition on all n basis states of every linear engine (+ random states) vs model", cases,
+                            mask=only_state)
     # every call kind is a whole number of native steps: state after `op` == state of a twin after k native steps
     adv, ameta = [], []
     for g in LINEAR:
@@ -404,8 +404,8 @@ def tie_C07(ctx):
                     continue
                 adv.append([f"new 0 {g} seed {seed.hex()}", "clone 1 0"] + op_lines(0, [op]) + ["ser 0"] + [f"{nat} 1"] * k + ["ser 1"])
                 ameta.append((g, op, k))
-    h2, _ = ctx.absolute("state transition through next_u32 / next_u64 / fill_bytes(n) equals k native steps (state images) vs model", adv,
-                         mask=only_state)
+    h2, _ = ctx.absolute_from_state("state transition through next_u32 / next_u64 / fill_bytes(n) equals k native steps (state images) vs model", adv,
+                                    mask=only_state)
     for (g, op, k), c, o in zip(ameta, adv, h2):
         if o[3] != o[-1]:
             ctx.fail("transition", f"{g}: `{op}` does not advance the state by {k} steps of the engine (another state transition is in use)",
@@ -691,7 +691,7 @@ def tie_C10(ctx):
         k = rng.randrange(1, 15)
         c = [f"new 0 Hc128Rng seed {seed.hex()}"] + ["u32 0"] * k + ["clone 1 0", "u32 1", "eq 0 1", "u32 0", "eq 0 1"]
         cases.append(c); meta.append(("Hc128Rng", 9, len(c) - 3))
-    h, _ = ctx.absolute("clone / == pairs with identical continuations vs model", cases)
+    h, _ = ctx.absolute_from_state("clone / == pairs with identical continuations vs model", cases)
     for (g, kind, eq_at), c, o in zip(meta, cases, h):
         if kind == 9:
             if o[eq_at] != "false":
@@ -741,7 +741,7 @@ def tie_C11(ctx):
             c += ["ser 0", "ser 1"]
             cases.append(c); meta.append((g, at))
             ctx.dist[f"{g}:snapshot"] += 1
-    h, _ = ctx.absolute("bincode image at a random point of a random history, restored twin, continuations vs model", cases)
+    h, _ = ctx.absolute_from_state("bincode image at a random point of a random history, restored twin, continuations vs model", cases)
     for (g, at), c, o in zip(meta, cases, h):
         if o[at + 1] != "ok":
             ctx.fail("serde", f"{g}: deserializing its own image failed", c, expected="ok", actual=o[at + 1]); continue
@@ -1058,8 +1058,10 @@ def tie_C14(ctx):
     cases.append(["new 0 Hc128Rng seed " + "07" * 32] + ["fill 0 65536"] * 3 + ["u32 0", "u64 0"])
     cases.append(["new 0 IsaacRng seed " + "09" * 32] + ["fill 0 65535"] * 2 + ["u32 0", "u64 0"])
     cases.append(["new 0 Isaac64Rng seed " + "0b" * 32] + ["fill 0 65535"] * 2 + ["u32 0", "u64 0", "u32 0"])
+    # C14 is about panics only: two results agree unless exactly one of them is `panic`
     h, _ = ctx.absolute("every operation under catch_unwind in an overflow-checked build; model predicts no panic", cases,
-                        stop_at_blocked=True, mask=lambda c: c.startswith("dbg "))
+                        stop_at_blocked=True, mask=lambda c: c.startswith("dbg "),
+                        equal=lambda x, y: (x == "panic") == (y == "panic"))
     for c, o in zip(cases, h):
         for cmd, v in zip(c, o):
             if v == "panic" and not (cmd.startswith("rounds ") and cmd.endswith(" 0")):
@@ -1277,7 +1279,8 @@ def tie_C17(ctx):
                [bytes(12) + rand_bytes(rng, 4), rand_bytes(rng, 4) + bytes(12)]:
         c = [f"de 0 XorShiftRng {img.hex()}", "dbg 0", "dbgp 0"]
         cases.append(c); meta.append(("XorShiftRng-de", 1))
-    h, _ = ctx.absolute("{:?} and {:#?} of the state-hiding generators vs the model's template (function of read position only)", cases)
+    h, _ = ctx.absolute("{:?} and {:#?} of the state-hiding generators vs the model's template (function of read position only)", cases,
+                        mask=lambda c: not (c.startswith("dbg") or c.startswith("de ")))
     import re
     for (g, at), c, o in zip(meta, cases, h):
         if g == "XorShiftRng-de":
@@ -1351,8 +1354,7 @@ def corpus_C18(ctx, serde_free=True):
 
 def tie_C18(ctx):
     cases = corpus_C18(ctx)
-    base, _ = ctx.absolute("corpus in the tie profile (opt 2, overflow checks + debug assertions on, serde on) vs model", cases,
-                           stop_at_blocked=True)
+    base = ctx.real("corpus in the tie profile (opt 2, overflow checks + debug assertions on, serde on)", cases)
     configs = [("release", False)] if not ctx.thorough else \
         [("dev", True), ("dev", False), ("o0nochk", True), ("o0nochk", False), ("release", True), ("release", False),
          ("o3chk", True), ("o3chk", False)]
@@ -1444,7 +1446,7 @@ def tie_C19(ctx):
         ctx.traces_validated += 1
         k = first_diff(ho, mo)
         if k is not None and "blocked" not in ho[:k + 1]:
-            ctx.disagreements.append(dict(family="solo vs model", case=c, line=k, cmd=c[k], impl=ho[k], model=mo[k]))
+            ctx.notes.append(f"solo run differs from the model at `{c[k][:40]}` (not a C19 matter; see C01-C04/C12)")
     # every world in its own process too, so that a failing world is a self-contained replay
     inter = run_isolated(ctx.hexe, inter_cases)
     for c in inter_cases:
